@@ -170,6 +170,9 @@ def task_rotation(pr, repo):
         ctx.assume(Or(a0[0] != 0, a0[1] != 0, a0[2] != 0))
         try:
             r = ex.call_function(fi, [theta, axis, vec])
+            ctx.oblige('frame: the caller\'s axis and vector objects are left as they were (a Vector that is used again rotates about '
+                       'the same axis)', And(*([axis.attrs[c] == a0['xyz'.index(c)] for c in 'xyz'] + [vec.attrs[c] == v0['xyz'.index(c)] for c in 'xyz'])
+                                            + [r is not axis and r is not vec]), kind='top')
         except PyRaise as e:
             ctx.oblige('no exception for a non-zero axis (path raises %s)' % e.exc_name, False, kind='top',
                        meta={'replay': replay_builder})
